@@ -3,6 +3,7 @@
 #![allow(unused_imports)]
 
 use super::*;
+use crate::{Direction, Piece};
 use crate::vspec::*;
 
 pub fn any_sq() -> u8 {
@@ -88,4 +89,37 @@ fn c16_square_print_parse() {
         Ok(sq) => assert!(sq.index() == i as usize, "C16: printed form parses back to the same square"),
         Err(_) => assert!(false, "C16: printed form of a square must parse"),
     }
+}
+
+// ===========================================================================
+// C16: the real Display impls of the small types (the printed form itself, not the byte spec)
+// ===========================================================================
+fn disp_dir(d: Direction) {
+    let s = d.to_string();
+    assert!(s.as_bytes().len() == 1 && s.as_bytes()[0] == dir_letter(d), "C16: a direction prints as its letter n/e/s/w");
+}
+fn disp_piece(p: Piece) {
+    let s = p.to_string();
+    assert!(s.as_bytes().len() == 1 && s.as_bytes()[0] == piece_letter(p), "C16: a piece prints as its lower-case letter");
+}
+// @obl props=C16 tier=quick kind=harness-contract mem=4 est=60
+// @fns Square::fmt Direction::fmt Piece::fmt
+// @clause the real Display impls: every square prints as file letter + rank digit (all 64, symbolic index); the 4 directions and 6 pieces print as their letters (enumerated concretely) -- i.e. exactly the byte spec the parse obligations use.  Display for Action (format! of the two parts, then a padded String write) is out of reach (900 s timeout even on concrete values): A5
+#[kani::proof]
+#[kani::unwind(8)]
+fn c16_display_small() {
+    let i = any_sq();
+    kani::cover!(i == 17);
+    let s = Square::from_index(i).to_string();
+    assert!(s.as_bytes().len() == 2 && s.as_bytes()[0] == file_letter(i) && s.as_bytes()[1] == rank_digit(i), "C16: a square prints as file letter and rank digit");
+    disp_dir(Direction::Up);
+    disp_dir(Direction::Right);
+    disp_dir(Direction::Down);
+    disp_dir(Direction::Left);
+    disp_piece(Piece::Elephant);
+    disp_piece(Piece::Camel);
+    disp_piece(Piece::Horse);
+    disp_piece(Piece::Dog);
+    disp_piece(Piece::Cat);
+    disp_piece(Piece::Rabbit);
 }
